@@ -70,6 +70,10 @@ class ConnectNode(fm.TimeComponent):
 
     def _connect(self, start_time):
         c = self.connector
+        if len(self.calls) > self.spec.get("cap", 200):
+            from ..harness import StepCapExceeded
+
+            raise StepCapExceeded(f"{self.name}: more than {len(self.calls)} connect calls")
         before = self.snap()
         ex, pi, pd = {}, {}, {}
         for i in self.spec["ins"]:
@@ -228,7 +232,8 @@ class C06(Property):
     def _protocol(self, out, spec):
         import hashlib
 
-        comps = [ConnectNode(f"n{c}", nd) for c, nd in enumerate(spec["nodes"])]
+        items_total = sum(2 * len(nd["ins"]) + 3 * len(nd["outs"]) for nd in spec["nodes"])
+        comps = [ConnectNode(f"n{c}", dict(nd, cap=items_total + 10)) for c, nd in enumerate(spec["nodes"])]
         composition = fm.Composition([comps[i] for i in spec["order"]], print_log=False, log_level=logging.CRITICAL + 10)
         for (a, o, b, i) in spec["links"]:
             comps[a].outputs[o] >> comps[b].inputs[i]
@@ -244,6 +249,11 @@ class C06(Property):
             stuck = {x.strip() for x in m.group(1).split(",") if x.strip()} if m else set()
         except Exception as e:  # pylint: disable=broad-except
             got = type(e).__name__ + ": " + str(e)[:150]
+        except BaseException as e:  # pylint: disable=broad-except
+            if type(e).__name__ != "StepCapExceeded":
+                raise
+            out.viol("connect_does_not_terminate", f"connect() keeps iterating without completing anything: {e}; model expected {'success' if not exp_stuck else 'stall of ' + str(sorted(exp_stuck))}", spec=spec)
+            return
         out.count("protocol_cases")
         ncalls = max(len(c.calls) for c in comps)
         items = sum(2 * len(nd["ins"]) + 3 * len(nd["outs"]) for nd in spec["nodes"])
